@@ -179,7 +179,7 @@ def _a_shard(sh: Dict[str, Any]) -> Dict[str, Any]:
                 cex.append({"n": n, "cuts": cuts, "where": where, "outer": o, "inner": i, "limit": limv,
                             "other_len": len(other), "why": f"got {[f.name for f in got]} err={err!r}, expected {[f.name for f in exp]}"})
 
-    eng = Engine(max_seconds=sh.get("budget", 240))
+    eng = Engine(max_seconds=sh.get("budget", 240) * (6 if os.environ.get("VERIF_TIER_EFFECTIVE") == "thorough" else 1))
     eng.explore(harness)
     return par.shard_result(eng, shard=f"n={n}", cex=cex, samples=samples, reached=reached[0])
 
@@ -352,7 +352,7 @@ def _b_shard(sh: Dict[str, Any]) -> Dict[str, Any]:
             cex.append({"real": True, "n": n, "cuts": cuts, "kinds": kinds, "entry": entry, "outer": o, "inner": i,
                         "limit": lim, "limit_frame": lf, "why": res["why"]})
 
-    eng = Engine(max_seconds=sh.get("budget", 240))
+    eng = Engine(max_seconds=sh.get("budget", 240) * (6 if os.environ.get("VERIF_TIER_EFFECTIVE") == "thorough" else 1))
     eng.explore(harness)
     return par.shard_result(eng, shard=f"real n={n}", cex=cex, samples=samples, reached=reached[0])
 
